@@ -97,6 +97,12 @@ FIXED = [
     ('F43', 'C18', 'fix: the C affinity kernels squared the penalty', 'warping_paths_affinity_fast(penalty=.1) differed from the Python matrix (C used .01)', None),
     ('F44', 'C18', 'fix: the buffer zone of local-concurrence matches flipped signs instead of masking',
      'kbest_matches(buffer=-1 or 1) on a full matrix: later matches reused cells / ran through -inf cells turned +inf', None),
+    ('F45', 'C20', 'fix: lb_keogh(use_c=True) handed non-contiguous NumPy views to C without copying',
+     'dtw.lb_keogh(strided or reversed view, use_c=True) computed the bound from memory next to the series', None),
+    ('F46', 'C20', 'fix: SeriesContainer did not detect the dimensionality of a list of array.array',
+     'dba / dba_loop on a list of array.array raised TypeError (average of shape (t, False))', None),
+    ('F47', 'C20', 'fix: dba_loop(use_c=True) required the initial average to have a .copy() method',
+     'dba_loop(list of array.array, use_c=True) raised AttributeError (array.array has no copy)', None),
 ]
 
 OPEN = [
